@@ -39,6 +39,7 @@ func init() {
 
 func c02Jobs(tier string) []Job {
 	jobs := []Job{{Name: "used-nonce-bfs", Run: func(r *Run) { c02BFS(r) }}}
+	jobs = append(jobs, Job{Name: "genesis-listed-pairs", Run: c02Genesis})
 	doms := []uint32{0, 1, 255, 256, 0xFF000000, 1<<32 - 1}
 	for _, d := range doms {
 		d := d
@@ -324,3 +325,79 @@ func c02Grid(r *Run, d uint32, doms []uint32) {
 }
 
 func mkeyOf(m map[string]bool) string { return strings.Join(sortedKeys(m), ",") }
+
+// c02Genesis: "a pair is reported as used ... if genesis listed it" -- for every non-empty subset of
+// four listed pairs and every combination of absent optional genesis scalars, each listed pair is
+// reported used by all three read paths, nothing else is, and a validly attested message carrying a
+// listed pair is refused.
+func c02Genesis(r *Run) {
+	cands := []noncePair{{1, 5}, {0, 0}, {3, 0}, {1<<32 - 1, 1<<64 - 1}}
+	universe := append(append([]noncePair{}, cands...), noncePair{0, 1}, noncePair{3, 5}, noncePair{1, 0})
+	for mask := 0; mask < 8; mask++ {
+		for sub := 1; sub < 1<<len(cands); sub++ {
+			g := BaseGenesis()
+			g.TokenMessengerList = append(g.TokenMessengerList, cctptypes.RemoteTokenMessenger{DomainId: 3, Address: distinct32(0xB3)})
+			if mask&1 != 0 {
+				g.NextAvailableNonce = nil
+			}
+			if mask&2 != 0 {
+				g.MaxMessageBodySize = nil
+			}
+			if mask&4 != 0 {
+				g.BurningAndMintingPaused, g.SendingAndReceivingMessagesPaused = nil, nil
+			}
+			listed := map[string]bool{}
+			g.UsedNoncesList = nil
+			for i, c := range cands {
+				if sub&(1<<i) != 0 {
+					g.UsedNoncesList = append(g.UsedNoncesList, cctptypes.Nonce{SourceDomain: c.D, Nonce: c.N})
+					listed[c.key()] = true
+				}
+			}
+			scn := Scenario{Name: fmt.Sprintf("c02-genesis optionals-absent=%03b listed=%s", mask, strings.Join(sortedKeys(listed), ",")), Ledger: BaseLedger(), Genesis: g}
+			w := scn.Build(KindDB)
+			base := w.Dump()
+			r.States++
+			single, list, export, err := observeUsed(w, universe)
+			r.Evaluations += len(universe)
+			rp := func(path []Action, exp, obs string) Replay {
+				x := scn.Replay("actions", path)
+				x.Expected, x.Observed = exp, obs
+				return x
+			}
+			want := strings.Join(sortedKeys(listed), ",")
+			if err != nil {
+				r.Violate("C02 used-nonce query failed", scn.Name+": "+err.Error(), rp(nil, "", ""))
+				continue
+			}
+			got := strings.Join(sortedKeys(single), ",")
+			r.Distinct(fmt.Sprintf("genesis %03b %s", mask, want))
+			if got != want || strings.Join(sortedStrs(list), ",") != want || strings.Join(sortedStrs(export), ",") != want {
+				r.Violate("C02 pairs listed in genesis are not exactly the pairs reported as used", fmt.Sprintf("%s: single queries %s, list %v, export %v", scn.Name, got, list, export), rp(nil, want, got))
+				continue
+			}
+			for _, c := range cands {
+				if !listed[c.key()] {
+					continue
+				}
+				m := InboundPlain(c.D, c.N, []byte("listed in genesis"), nil)
+				a := MkReceive(UserA.Str, m, Attest(m, Keys[0:2]), "plain "+c.key()+" (listed in genesis)")
+				w.Load(base)
+				o := w.Apply(a)
+				r.Transitions++
+				if o.OK {
+					r.Class("ok")
+					r.Violate("C02 a pair listed in genesis was received", fmt.Sprintf("%s: %s accepted", scn.Name, a.Desc), rp([]Action{a}, "refused", "ok"))
+				} else {
+					r.Class("replay-rejected")
+				}
+			}
+		}
+	}
+}
+
+func sortedStrs(a []string) []string {
+	out := append([]string{}, a...)
+	sort.Strings(out)
+	return out
+}
